@@ -384,96 +384,18 @@ def _collection_host(ctx):
 
 
 def rule_align(ctx, rid='R3'):
-    ctx.rule(rid, 'align(): reindex step', 3)
+    """align(): which arrays are re-indexed on which common axis, what the result list holds and what happens to the caller's list.  Decided by interpreting
+    align() on abstract arrays (sa/scenarios_def.sc_align: _get_aligned_axes is a stub that returns one axis per dimension and records the options it was given,
+    reindex_axis gives a new array carrying the axis) and comparing the resulting lists with the frozen table - whatever loops, comprehensions or helpers the
+    function is written with."""
+    from ..scenario_rule import rule_scenarios
+    rule_scenarios(ctx, rid, only=AL + 'align', title='align(): reindex step (interpreted on abstract arrays: options handed on, every mismatching dimension of every array '
+                   're-indexed on the common axis, arrays lacking the dimension skipped, private result list)')
+    # the common axes come from _get_aligned_axes / _common_axis
     fi = ctx.fn(AL + 'align')
-    gaa = ctx.P.functions.get(AL + '_get_aligned_axes')
-    ARR = P_('arrays')
-    ev = run(ctx, fi, mode='join', oracle=lambda a, st: (True if (a[0] == 'call' and T.dotted(a[1]) == 'isinstance' and a[2][0] == ARR) else None))
-    rets = ret_paths(ev)
-    ctx.require(rid, rets, 'align() has no returning path')
-    p = rets[0]
-    # forwarding of the options
-    calls = [e.a for e in p.calls('_get_aligned_axes')]
-    if gaa is None:
-        # no helper: the common axes are collected in align() itself (rule R2 reads that collection); they are the _common_axis results
-        if not any(True for e in p.calls('_common_axis')):
-            ctx.undecide(rid, 'align: neither _get_aligned_axes nor _common_axis is called')
-            return
-        axes_term = None
-        ctx.holds(rid, 'align computes the common axes itself (options used where they are given)')
-    else:
-        if len(calls) != 1:
-            ctx.violated(rid, fi, '_get_aligned_axes', 'align must compute the common axes once')
-            return
-        b = bind_call_args(calls[0], gaa)
-        wrong = [k for k in ('join', 'axis', 'sort', 'strict') if b.get(k) != P_(k)]
-        if wrong:
-            ctx.violated(rid, fi, T.show(calls[0])[:140], 'options %s are not forwarded to _get_aligned_axes' % wrong)
-        else:
-            ctx.holds(rid, 'align forwards join/axis/sort/strict')
-        axes_term = calls[0]
-    # the reindex call
-    rx = [e for e in p.calls('reindex_axis')]
-    if not rx:
-        ctx.violated(rid, fi, 'reindex step', 'align never reindexes its inputs')
-        return
-    for e in rx:
-        c = e.a
-        o = T.call_receiver(c)
-        arg = c[2][0] if c[2] else None
-        # loops: innermost loop must be the one that binds `o`
-        if o[0] != 'elem':
-            ctx.undecide(rid, 'align: receiver of reindex_axis is not a loop element: %s' % T.show(o)[:100])
-            continue
-        olid = o[2]
-        if not e.loops or e.loops[-1] != olid:
-            ctx.violated(rid, fi, e.node, 'the array being reindexed is bound in an outer loop while the replacement arrays[i] = ... happens in an '
-                         'inner loop over the axes: every axis after the first reindexes the stale, not yet reindexed array and only the last '
-                         'reindexing survives', node=e.node)
-            continue
-        from_common = arg is not None and arg[0] == 'elem' and (arg[1] == axes_term if axes_term is not None else
-                                                                   any(x[0] == 'call' and T.call_name(x) == '_common_axis' for x in T.subterms(arg[1])))
-        if not from_common:
-            ctx.violated(rid, fi, e.node, 'each array must be reindexed on the common axis computed by _get_aligned_axes', node=e.node)
-            continue
-        # o must iterate the private list
-        src = o[1]
-        if src == ARR:
-            ctx.violated(rid, fi, e.node, 'align works on (and would modify) the caller\'s own list', node=e.node)
-            continue
-        # skip guards
-        has_dim = [pol for a, pol in e.guards if a[0] == 'cmp' and a[1] == 'in' and a[2] == ('attr', arg, 'name') and a[3] == ('attr', o, 'dims')]
-        if has_dim != [True]:
-            ctx.violated(rid, fi, e.node, 'arrays that do not have the dimension must be skipped (ax.name not in o.dims)', node=e.node)
-            continue
-        ctx.holds(rid, 'align: o.reindex_axis(ax) for arrays having the dimension; innermost loop binds o')
-    # the store goes to a private copy of the list at the index of the same loop
-    stores = [e for e in p.events if e.kind == 'store_sub' and e.loops]
-    okc = False
-    for e in stores:
-        if e.c[0] == 'call' and T.call_name(e.c) == 'reindex_axis':
-            private = all(r[0] in ('comp', 'list') or (r[0] == 'call' and T.dotted(r[1]) in ('list', 'copy.copy')) for r in _roots(e.a))
-            if not private:
-                ctx.violated(rid, fi, e.node, 'the reindexed array is stored into the caller\'s list: the input list is modified', node=e.node)
-            else:
-                o = T.call_receiver(e.c)
-                if e.b == ('idx', o[1], o[2]):
-                    okc = True
-                else:
-                    ctx.violated(rid, fi, e.node, 'the reindexed array must replace the element it was computed from (arrays[i] with the same i)', node=e.node)
-    if not stores:
-        # no store at all: a new list is built for each axis, [o if <nothing to do> else o.reindex_axis(ax) for o in arrays] - the element of a list
-        # comprehension takes the place of the element it was computed from
-        for x in T.subterms(p.value):
-            if x[0] == 'comp' and x[1] == 'list' and len(x[3]) == 1 and not x[3][0][2]:
-                el = ('elem', x[3][0][1], x[3][0][0])
-                alts = T.value_alts(x[2])
-                if el in alts and all(a == el or (a[0] == 'call' and T.call_name(a) == 'reindex_axis' and T.call_receiver(a) == el) for a in alts) and len(alts) == 2:
-                    okc = True
-    if okc:
-        ctx.holds(rid, 'align: result stored at the same index of a private list copy')
-    if p.value[0] not in ('comp', 'setitem', 'phi', 'call') or p.value == ARR:
-        ctx.violated(rid, fi, 'return ' + T.show(p.value)[:100], 'align must return its private list of (possibly reindexed) arrays', node=p.node)
+    ev = run(ctx, fi, mode='join')
+    if not any(True for p in ev.paths for n in ('_get_aligned_axes', '_common_axis') for e in p.calls(n)):
+        ctx.undecide(rid, 'align: neither _get_aligned_axes nor _common_axis is called')
 
 
 def rule_sort_ownership(ctx):
